@@ -316,14 +316,14 @@ func fixedPrefixPath(pathspec string) string {
 func (c *Container) ServeHTTP(httpWriter http.ResponseWriter, httpRequest *http.Request) {
 	// Skip, if content encoding is disabled
 	if !c.contentEncodingEnabled {
-		c.ServeMux.ServeHTTP(httpWriter, httpRequest)
+		c.serveMux().ServeHTTP(httpWriter, httpRequest)
 		return
 	}
 	// content encoding is enabled
 
 	// Skip, if httpWriter is already an CompressingResponseWriter
 	if _, ok := httpWriter.(*CompressingResponseWriter); ok {
-		c.ServeMux.ServeHTTP(httpWriter, httpRequest)
+		c.serveMux().ServeHTTP(httpWriter, httpRequest)
 		return
 	}
 
@@ -346,7 +346,14 @@ func (c *Container) ServeHTTP(httpWriter http.ResponseWriter, httpRequest *http.
 		}
 	}
 
-	c.ServeMux.ServeHTTP(writer, httpRequest)
+	c.serveMux().ServeHTTP(writer, httpRequest)
+}
+
+// serveMux returns the current ServeMux ; Remove replaces it while holding the webServicesLock.
+func (c *Container) serveMux() *http.ServeMux {
+	c.webServicesLock.RLock()
+	defer c.webServicesLock.RUnlock()
+	return c.ServeMux
 }
 
 // Handle registers the handler for the given pattern. If a handler already exists for pattern, Handle panics.
